@@ -46,7 +46,7 @@ Section Cli.
     destruct (tokenize (pick_string (i_f_fmt i) (i_e_fmt i) (ce_fmt cfg) default_fmt)) as [toks|]; [|discriminate Hl].
     destruct (match i_f_today i with
               | Some s => match parse_date toks s with Some c => inr (time_of_civil c) | None => inl EBadDate end
-              | None => inr (or_default (ce_now cfg) (w_clock w))
+              | None => inr (time_of_civil (civ (or_default (ce_now cfg) (w_clock w))))
               end) as [e|now]; [discriminate Hl|].
     cbn [pick_period].
     destruct (pick_period w now toks (i_g_begin i) (i_l_begin i)) as [e|bt]; [discriminate Hl|].
@@ -74,7 +74,7 @@ Section Cli.
   Proof.
     intros w i op f Hl Hc Hwf Hs Hcl Hd Hf Hne Hcp.
     pose proof (load_period w i op Hl) as [Ht _].
-    destruct Hf as [Hp0 [Hp Hfault]].
+    destruct Hf as [Hp0 [Hpd [Hp Hfault]]].
     unfold run.
     rewrite (load_without_period w i op (op_log op) _ Hl Hcp). rewrite Hl.
     change (op_rc (without_period op)) with (op_rc op).
@@ -82,7 +82,7 @@ Section Cli.
     change (i_desc (without_period_flags i)) with (i_desc i).
     change (op_begin (without_period op)) with (@None time).
     change (op_end (without_period op)) with (@None time).
-    assert (Hf : file_is w (op_log op) (render f)) by (split; [exact Hp0 | split; [exact Hp | exact Hfault]]).
+    assert (Hf : file_is w (op_log op) (render f)) by (split; [exact Hp0 | split; [exact Hpd | split; [exact Hp | exact Hfault]]]).
     destruct (i_cmd i); try discriminate Hc; rewrite ?run_db_log_without_period.
     - apply (period_is_deletion_run_db_log NM f _ Hwf Hs Hcl Hd); assumption.
     - apply (period_is_deletion_run_db_log NM f _ Hwf Hs Hcl Hd); assumption.
@@ -109,7 +109,7 @@ Section Cli.
   Proof.
     intros w i op f Hl Hc Hwf Hs Hcl Hf Hne Hcp.
     pose proof (load_period w i op Hl) as [Ht _].
-    destruct Hf as [Hp0 [Hp Hfault]].
+    destruct Hf as [Hp0 [Hpd [Hp Hfault]]].
     unfold run.
     rewrite (load_without_period w i op (op_log op) _ Hl Hcp). rewrite Hl.
     change (op_rc (without_period op)) with (op_rc op).
@@ -117,7 +117,7 @@ Section Cli.
     change (i_desc (without_period_flags i)) with (i_desc i).
     change (op_begin (without_period op)) with (@None time).
     change (op_end (without_period op)) with (@None time).
-    assert (Hf : file_is w (op_log op) (render f)) by (split; [exact Hp0 | split; [exact Hp | exact Hfault]]).
+    assert (Hf : file_is w (op_log op) (render f)) by (split; [exact Hp0 | split; [exact Hpd | split; [exact Hp | exact Hfault]]]).
     destruct (i_cmd i); try discriminate Hc; rewrite ?run_db_log_without_period.
     - apply (period_is_deletion_or_undated_run_db_log NM f _ Hwf Hs Hcl); assumption.
     - apply (period_is_deletion_or_undated_run_db_log NM f _ Hwf Hs Hcl); assumption.
